@@ -44,6 +44,9 @@ var propC16 = &pProp{
 			}
 			for k := 0; k < p.optSets; k++ {
 				o := drawOpts(r, gp, 45, 12)
+				if gp.Has["Debug"] && r.chance(1, 5) {
+					o.Debug = true // what a debugging session adds must not get in the budget's way
+				}
 				if r.chance(1, 4) {
 					o.UseReader = true // the input may be treated differently when it comes from a reader
 				}
